@@ -490,6 +490,9 @@ type inProcessServerStream struct {
 	trailers  metadata.MD
 	state     streamState
 	responses chan<- frame // guarded by mu to prevent write-after-close panic
+	// first response message that could not be sent because it cannot be
+	// copied (guarded by mu): the call must not end as a success without it
+	sendErr error
 }
 
 func (s *inProcessServerStream) SetHeader(md metadata.MD) error {
@@ -539,6 +542,13 @@ func (s *inProcessServerStream) finish(err error) {
 		close(s.responses)
 		s.mu.Unlock()
 	}()
+
+	if err == nil && s.sendErr != nil {
+		// the handler ignored that one of its responses could not be sent
+		// (as with a marshalling failure on a normal gRPC server, the call
+		// fails rather than silently losing the message)
+		err = s.sendErr
+	}
 
 	if s.state == streamStateHeaders && len(s.headers) > 0 {
 		_ = writeMessage(s.ctx, nil, s.responses, frame{headers: s.headers})
@@ -590,11 +600,17 @@ func (s *inProcessServerStream) SendMsg(m interface{}) error {
 		}
 	}
 	if isNil(m) {
+		if s.sendErr == nil {
+			s.sendErr = status.Errorf(codes.Internal, "message to send is nil")
+		}
 		return status.Errorf(codes.Internal, "message to send is nil")
 	}
 
 	m, err := s.cloner.Clone(m)
 	if err != nil {
+		if s.sendErr == nil {
+			s.sendErr = status.Errorf(codes.Internal, "failed to copy response message: %v", err)
+		}
 		return err
 	}
 	return writeMessage(s.ctx, nil, s.responses, frame{data: m})
